@@ -546,8 +546,9 @@ def _len_bound(fn, panicking):
     """(op, constant) of the comparison `len OP constant` whose failing side panics (writer assertion, panicking=True) or whose
     true side rejects (validator, panicking=False); None when the function has no such single comparison"""
     out = []
-    for c in cmp_branches(fn):
-        if c["kind"] != "bin" or c["op"] not in ("<", "<=", ">", ">="):
+    cs = [c for c in cmp_branches(fn) if c["kind"] == "bin"]
+    for c in cs + [m for m in map(mirrored, cs) if m is not None]:      # `MAX < len` is the same test as `len > MAX`
+        if c["op"] not in ("<", "<=", ">", ">="):
             continue
         k = fn.const_of(c["b"])
         if not isinstance(k, int) or isinstance(k, bool) or fn.const_of(c["a"]) is not None:
